@@ -1,10 +1,10 @@
 #!/bin/bash
 # usage: tools/run_all.sh [tier] [seed]   -- runs every registered check against /repo, prints a summary line each
 tier=${1:-quick}; seed=${2:-0}
-cd /verif
+cd "$(dirname "$0")/.." && export PYTHONPATH=/repo:$(pwd)
 for c in $(cat tools/registered.txt); do
   s=$(date +%s)
-  out=$(PYTHONPATH=/repo:/verif /venv/bin/python -B -m mc $c --tier $tier --seed $seed 2>&1); rc=$?
+  out=$(/venv/bin/python -B -m mc $c --tier $tier --seed $seed 2>&1); rc=$?
   e=$(date +%s)
   echo "$c exit=$rc wall=$((e-s))s $(echo "$out" | grep -c '^VIOLATION') violations; $(echo "$out" | grep -c '^KNOWN-FINDING') known; $(echo "$out" | tail -1 | cut -c1-160)"
   if [ $rc -ne 0 ]; then echo "$out" | grep -E "^VIOLATION|group:|HARNESS" | head -8; fi
